@@ -197,7 +197,9 @@ def dist_fn(scn, model):
         Tm = np.array(H.present_values(scn["D"], how, matrix=True) if scn["mode"] == "pre" else scn["D"], dtype=float)
         return lambda a, b: float(Tm[a, b])
     Z = H.present_values(scn["Z"], how)
-    fn = model.distance_fn
+    # the metric NAMED by the scenario, taken from the registry - not whatever function the object ended up holding
+    import opfython.math.distance as _dist
+    fn = _dist.DISTANCES[scn.get("metric", "euclidean")]
     return lambda a, b: float(fn(Z[a].copy(), Z[b].copy()))
 
 
